@@ -218,7 +218,7 @@ func genSkip(t *rapid.T) skipCase {
 		c.Start = rapid.IntRange(0, 2).Draw(t, "start")
 	}
 	if c.Kind == 5 {
-		c.Perm = rapid.Permutation(seq(c.N + 2)).Draw(t, "perm")
+		c.Perm = rapid.Permutation(seq(c.N+2)).Draw(t, "perm")
 	}
 	key := rapid.IntRange(0, c.N+1) // domain ±1: indices 0 and N+1 are the outer neighbours, all usable as keys too
 	weights := []int{opSet, opSet, opSet, opSetNx, opSetX, opRemove, opRemove, opClear, opGet, opNode, opHead, opKeysValues, opRange, opAll, opRangeStart, opRangeStart, opRangeRange, opRangeRange}
@@ -513,6 +513,6 @@ func drive[K comparable](c skipCase, r *pb.Rec, a api[K], keyOf func(int) K, les
 func init() {
 	pb.Register("ordered_map", pb.Options{Base: 8000,
 		Required: []string{"top level shrank", "zero value read path", "zero value after Clear read path", "clear then write", "level >= 4 reached"},
-		Rule: "operation sequences (<= 60 steps, thorough <= 200) over Set/SetNx/SetX/Remove/Clear/Get/GetNode(+Key/Value/Next/SetValue)/Head/Len/Keys/Values/Range/All/RangeWithStart/RangeWithRange with early-stop callbacks, on SkipList[int|string|float64] started from NewSkipList / zero value / zero value after Clear and SkipListWithCmp under ascending, descending and permutation-rank comparators; dense key domains with outer neighbours; tower heights injected through the list's random source (part of the case); oracle: sorted-map model compared after every step; non-trivial = a present key removed after >= 3 inserts and a range query with an absent start key"},
+		Rule:     "operation sequences (<= 60 steps, thorough <= 200) over Set/SetNx/SetX/Remove/Clear/Get/GetNode(+Key/Value/Next/SetValue)/Head/Len/Keys/Values/Range/All/RangeWithStart/RangeWithRange with early-stop callbacks, on SkipList[int|string|float64] started from NewSkipList / zero value / zero value after Clear and SkipListWithCmp under ascending, descending and permutation-rank comparators; dense key domains with outer neighbours; tower heights injected through the list's random source (part of the case); oracle: sorted-map model compared after every step; non-trivial = a present key removed after >= 3 inserts and a range query with an absent start key"},
 		genSkip, runSkip)
 }
